@@ -31,6 +31,12 @@ LEVEL = {
  "C08": ("exploration", "bounded-exhaustive enumeration of term sets x encodings histories x automata x key ranges on the implementation vs. independently computed acceptance",
          "every subset of a 6-term universe x postings-size patterns x provenance (built / opened / merged once / merged twice) x 25 automata x every well-formed key range is enumerated on the real dictionary; terms, order, counts, Contains and Cardinality are compared with independently computed answers; the space is enumerated completely",
          "acceptance oracles: Go strings/regexp and an edit-distance function; vellum's automata are trusted only as inputs", "4 C08"),
+ "C17": ("fault_enumeration", "exhaustive enumeration of write-fault points (every byte offset) on the real Persist / WriteTo / Merge paths",
+         "for 8 inputs the fault-free run is recorded and then one run is made per fault point: the destination writer failing at every byte offset (two failure modes) for WriteTo, and a real torn write at every byte offset (RLIMIT_FSIZE) for Persist and Merge with a 16-byte merge buffer; each must return an error and leave no file; the fault-free run must produce a complete, correct file",
+         "Sync/Close failures are not injected; RLIMIT_FSIZE tears the write at the exact byte", "4 C17"),
+ "C18": ("fault_enumeration", "exhaustive enumeration of cancellation points (every observable step of the merge) on the real Merge",
+         "for every merge input the fault-free run is recorded and one merge is run per closing point (before the call, inside every observable write step / engine call, never); each run must end in success with a complete correct file or in the closed error with no file; both build tags",
+         "cancellation is observed only at polls of the merge goroutine, so closing inside observable step j covers every real closing time between steps j and j+1 (DESIGN 4 C18)", "4 C18"),
  "C01": ("exploration", "bounded-exhaustive input enumeration on the implementation vs. reference model",
          "every batch of a stated finite alphabet (cell menu per document x field, N<=3; column and chunk-boundary families) x chunk modes x both build tags is built by the real code and its complete term/postings content compared with an independent reference model; exhaustive within the bounds, no sampling",
          "reference model in harness/ref; inputs only inside the alphabet; Go map order not enumerable (semantic oracle)", "4 C01"),
